@@ -2,6 +2,8 @@
 from framework import Case
 
 PROP = 'C07'
+TRANSLATORS = ['window']                        # Gen/Window.lean: the whole storage model is generated from the source
+EXTRA_THEOREM_MODULES = ['DcVerif.Props.C07Gen']  # what each generated function does under the invariant (counted, audited)
 BUILDS = ['safe', 'unsafe']
 OPT_BUILDS = {'unsafe': 'unsafe-opt'}   # thorough tier: the unsafe cases again at opt-level 3
 RULE = ('storages arr|vec (both builds) and uarr|uvec (build with the `unsafe` feature); sizes 1…9; array capacities every '
@@ -12,11 +14,14 @@ RULE = ('storages arr|vec (both builds) and uarr|uvec (build with the `unsafe` f
         'accessors and arr::<N-1|N|N+1> interleaved; malformed stream (model-only, no spec): SIZE = 0, CAPACITY <= SIZE, '
         'multiple 0/1, size 0 on the safe storages; non-trivial = history longer than the capacity (at least one rewind); '
         'distinct = sha256 of the case text')
-ASSUMPTIONS = ['copy_within / ptr::copy = memmove; the 16-byte chunked forward copy of the unsafe array (destination below '
-               'source) moves the same bytes as one memmove',
+ASSUMPTIONS = ['copy_within / ptr::copy = memmove; consecutive forward `ptr::copy` calls on byte ranges that tile a prefix '
+               '(destination = buffer start, below the source) move the same bytes as one memmove — the tiling itself is derived '
+               'from the parsed source by the translator, not assumed',
                'values stay within the element type (the generator never emits a value that does not fit)',
                'usize arithmetic does not overflow (indices < 2^64)']
-TRUSTED_EXTRA = ['C07: the abstract-machine meaning of the unsafe blocks is modelled (preconditions of unchecked operations '
+TRUSTED_EXTRA = ['C07: tools/rs2lean_window.py (which guard each Rust operation contributes; byte-copy tiling argument) and '
+                 'lean/DcVerif/Model/WindowPrim.lean (Out, St, memmove); everything else of the storage model is generated',
+                 'C07: the abstract-machine meaning of the unsafe blocks is modelled (preconditions of unchecked operations '
                  'are `ub` outcomes of the model and proved unreachable), the compiled behaviour is what is compared']
 
 # Which model the safe vector storage is compared with: 'vec' = storage_vec.rs as it is in the repository (defect F1, open
@@ -209,7 +214,11 @@ F1_SIGNATURE = {'storage': 'vec', 'model_of_todays_code_agrees': True, 'only_win
 
 def signature(case, verdicts):
     """F1: the safe vector storage, behaving exactly as the model of today's code (no MISMATCH), wrong only in the
-    fields derived from the window bounds (`head` one too low after a rewind)"""
+    fields derived from the window bounds (`head` one too low after a rewind). The live model is regenerated from the
+    source and therefore agrees with *any* storage_vec.rs; "today's code" is pinned by lean/DcVerif/Model/WindowF1.lean (a
+    frozen copy of the generated vec… definitions): for `vec` cases the driver adds `MISMATCH pinned=F1 …` to every
+    answer that violates the spec *and* differs from the frozen model, so a new defect of the vector storage is not
+    mistaken for F1."""
     kind, n, c, ty = _parse(case)
     spec = [l for l in verdicts if l.startswith('SPECFAIL')]
     if not spec:
